@@ -63,6 +63,9 @@ type Cfg struct {
 	Mod   string                       `json:"mod"`
 	Mfail []string                     `json:"mfail"`
 	From  string                       `json:"from"` // "addr" | "null": ordinary sender / null reverse-path
+	// Nafin: what the driver does after a per-recipient body refused for every recipient:
+	// "commit" (as Session.LMTPData and the queue) or "abort"
+	Nafin string `json:"nafin"`
 }
 
 type Call struct {
@@ -343,12 +346,16 @@ func cfgEvent(c Cfg) vtrace.Ev {
 	if mfail == nil {
 		mfail = []string{}
 	}
+	nafin := c.Nafin
+	if nafin != "abort" {
+		nafin = "commit"
+	}
 	mod := c.Mod
 	if mod != "on" {
 		mod = "off"
 	}
 	return vtrace.Ev{"place": c.Place, "verd": c.Verd, "only1": only, "route": c.Route,
-		"path": c.Path, "dmarc": c.Dmarc, "kind": c.Kind, "mod": mod, "mfail": mfail}
+		"path": c.Path, "dmarc": c.Dmarc, "kind": c.Kind, "mod": mod, "mfail": mfail, "nafin": nafin}
 }
 
 func runPipeline(t *testing.T, b Behaviour, w *bufio.Writer) {
@@ -448,7 +455,9 @@ func runPipeline(t *testing.T, b Behaviour, w *bufio.Writer) {
 					}
 				}
 				tr.Emit("Ret", vtrace.Ev{"op": "body", "r": "", "res": res, "code": code, "st": st})
-				// like Session.LMTPData and the queue: Commit follows BodyNonAtomic whatever the statuses were
+				if res != "ok" && b.Cfg.Nafin == "abort" {
+					fin = "abort"
+				}
 			} else {
 				var e error
 				d.cmd("body", "", func() { e = dl.Body(ctx, hdr, body) })
@@ -602,40 +611,55 @@ func newRemoteBehind(tr *vtrace.Tracer, instName, id string) *remoteBehind {
 	return &remoteBehind{name: instName, id: id, tr: tr, rt: rt, hop: hop, closer: func() { rt.Close() }}
 }
 
-// kind "qpipe": the real queue behind destination block D1; beneath it a target that records,
-// as call "relay" on "Q1", the quarantine flag of the metadata the queue hands over when it
-// delivers the message.
+// kind "qpipe": the real queue behind destination block D1 and the real remote target behind the
+// queue (in-memory next hop). An observer between the two records, as call "relay" on "Q1", the
+// quarantine flag of the metadata the queue hands over when it delivers the message and whether
+// the remote target refused it.
 type relayTarget struct {
-	tr   *vtrace.Tracer
-	mu   sync.Mutex
-	seen bool
+	tr    *vtrace.Tracer
+	inner module.DeliveryTarget
+	mu    sync.Mutex
+	seen  bool
 }
 
 type relayDelivery struct {
-	t    *relayTarget
-	meta *module.MsgMetadata
+	t     *relayTarget
+	meta  *module.MsgMetadata
+	inner module.Delivery
+	first bool
 }
 
 func (t *relayTarget) Start(ctx context.Context, msgMeta *module.MsgMetadata, mailFrom string) (module.Delivery, error) {
-	return &relayDelivery{t: t, meta: msgMeta}, nil
+	d, err := t.inner.Start(ctx, msgMeta, mailFrom)
+	if err != nil {
+		return nil, err
+	}
+	return &relayDelivery{t: t, meta: msgMeta, inner: d, first: true}, nil
 }
-func (d *relayDelivery) AddRcpt(ctx context.Context, to string, _ smtp.RcptOptions) error { return nil }
+func (d *relayDelivery) AddRcpt(ctx context.Context, to string, opts smtp.RcptOptions) error {
+	err := d.inner.AddRcpt(ctx, to, opts)
+	if d.first {
+		d.first = false
+		d.t.tr.Emit("TgtCall", vtrace.Ev{"tgt": "Q1", "op": "relay", "arg": "", "res": remoteClass(err), "q": d.meta.Quarantine})
+		d.t.mu.Lock()
+		d.t.seen = true
+		d.t.mu.Unlock()
+	}
+	return err
+}
 func (d *relayDelivery) Body(ctx context.Context, h textproto.Header, b buffer.Buffer) error {
-	d.t.tr.Emit("TgtCall", vtrace.Ev{"tgt": "Q1", "op": "relay", "arg": "", "res": "ok", "q": d.meta.Quarantine})
-	d.t.mu.Lock()
-	d.t.seen = true
-	d.t.mu.Unlock()
-	return nil
+	return d.inner.Body(ctx, h, b)
 }
-func (d *relayDelivery) Commit(ctx context.Context) error { return nil }
-func (d *relayDelivery) Abort(ctx context.Context) error  { return nil }
+func (d *relayDelivery) Commit(ctx context.Context) error { return d.inner.Commit(ctx) }
+func (d *relayDelivery) Abort(ctx context.Context) error  { return d.inner.Abort(ctx) }
 
 func newQueueBehind(t *testing.T, tr *vtrace.Tracer, instName, id string) *remoteBehind {
 	dir, err := os.MkdirTemp(os.Getenv("VERIF_TMP"), "c06spool")
 	if err != nil {
 		t.Fatal(err)
 	}
-	rel := &relayTarget{tr: tr}
+	rb := newRemoteBehind(tr, instName+"_remote", "R")
+	rel := &relayTarget{tr: tr, inner: rb.rt}
 	q, err := queue.VerifNewQueue(queue.VerifConfig{
 		Location: dir, Target: rel, MaxTries: 1, MaxParallelism: 1,
 		InitialRetryTime: time.Minute, RetryTimeScale: 1, PostInitDelay: 0,
@@ -646,7 +670,7 @@ func newQueueBehind(t *testing.T, tr *vtrace.Tracer, instName, id string) *remot
 		t.Fatal(err)
 	}
 	return &remoteBehind{name: instName, id: id, tr: tr, rt: q, hop: &miniHop{},
-		closer:  func() { q.Close(); os.RemoveAll(dir) },
+		closer:  func() { q.Close(); rb.close(); os.RemoveAll(dir) },
 		relayed: func() bool { rel.mu.Lock(); defer rel.mu.Unlock(); return rel.seen }}
 }
 
